@@ -277,7 +277,17 @@ fn connack_cases(rep: &mut Rep, idx: &mut u64) {
                 let mut sim = Sim::new(rep.seed);
                 sim.cmd(Cmd::Connect(ConnSpec::default()));
                 sim.settle();
+                match *idx % 7 {
+                    1..=4 => sim.cut_after = Some((*idx % 7) as usize),
+                    5 => sim.trickle = Some(1),
+                    _ => {}
+                }
+                if sim.cut_after.is_some() || sim.trickle.is_some() {
+                    rep.add("packets_delivered_in_pieces", 1);
+                }
                 sim.feed_packet(&SPacket::Connack { session_present: sp, reason, props: props.clone() });
+                sim.cut_after = None;
+                sim.trickle = None;
                 sim.settle();
                 let got = sim.last_ctx_result("connect");
                 let e = connack_expected(sp, reason, &props);
@@ -723,8 +733,19 @@ fn publish_cases(rep: &mut Rep, idx: &mut u64) {
         props.insert(pos, Prop::var(11, sid));
         let pid = pkt_ids[n % pkt_ids.len()];
         let p = rc::Publish { dup, qos, retain, topic: topic.clone(), id: if qos > 0 { Some(pid) } else { None }, props: props.clone(), payload: payload.clone() };
+        // the packet arrives whole, or with one read boundary 1-5 bytes in (inside / right behind its fixed header), or byte by byte
+        match n % 8 {
+            1..=5 => sim.cut_after = Some(n % 8),
+            6 if payload.len() < 3000 => sim.trickle = Some(1),
+            _ => {}
+        }
+        if sim.cut_after.is_some() || sim.trickle.is_some() {
+            rep.add("packets_delivered_in_pieces", 1);
+        }
         sim.feed_packet(&SPacket::Publish(p));
         sim.settle();
+        sim.cut_after = None;
+        sim.trickle = None;
         sim.drain_stream(st);
         rep.add("evaluations", 1);
         rep.add("publishes_decoded", 1);
